@@ -19,6 +19,10 @@ Transcribed (after `fixes/C08-excluded-phrase-case.patch`):
 * `TransferManager._on_peer_transfer_request` (direction = upload)      transfer/manager.py:1282-1387
 * `TransferManager._add_upload`, `_evaluate_aborted_state`, `manage_shares_changed`, `_management_job`
                                                                       transfer/manager.py:1531-1584, 569-594, 517-533
+* `SharesManager.load_from_settings` (after `fixes/C08-reload-announces-removed.patch`), `scan`
+                                                                      shares/manager.py:234-262, 626-653
+* `UserManager._management_job` (the polling of `settings.users.friends` / `.blocked` against the
+  copies in `UserManagementContext`)                                   user/manager.py:98-101, 263-294
 
 Characters are code points (`Nat`), user names are numbers, a path component is a list of code
 points, a remote path is the string the peer sends. A `SharedDirectory` object carries, besides its
@@ -300,12 +304,32 @@ structure S where
   xs : List Xfer := []
   /-- `_RequestFlag.SHARES_CHANGE` is set in `_management_flags` -/
   sharesChanged : Bool := false
+  /-- `UserManagementContext.friends` / `.blocked`: the copies of the two settings the user
+  manager's polling job took when it last announced a change (user/manager.py:98-101, 125-128,
+  289-291). Lists stand for the Python set / dict: the driver is fed canonical (sorted) lists. -/
+  seenFriends : List Name := []
+  seenBlocked : List (Name × Nat) := []
 
 inductive Op
-  /-- `settings.users.friends` replaced, `FriendListChangedEvent` emitted -/
+  /-- `settings.users.friends` replaced and the change announced (`FriendListChangedEvent`) in one
+  step: `mutFriends l` immediately followed by the user manager's poll -/
   | setFriends (l : List Name)
-  /-- `settings.users.blocked` replaced, `BlockListChangedEvent` emitted -/
+  /-- `settings.users.blocked` replaced and announced (`BlockListChangedEvent`) in one step -/
   | setBlocked (l : List (Name × Nat))
+  /-- `settings.users.friends` becomes `l` — assigned, or the set mutated in place. Nothing is
+  emitted: the lock checks read the setting at once, the change is announced by the next `poll` -/
+  | mutFriends (l : List Name)
+  /-- `settings.users.blocked` becomes `l` (assigned or mutated in place), nothing emitted -/
+  | mutBlocked (l : List (Name × Nat))
+  /-- one run of `UserManager._management_job` (every second): the two settings are compared with
+  the copies of the context; on a difference the events are emitted and both copies refreshed -/
+  | poll
+  /-- `settings.shares.directories` becomes `es` (entries dropped, added, their mode / users
+  changed — by assignment or by mutating the lists in place), then `load_from_settings()`, then
+  `scan_directory_files` of every directory it lists (`disk` = what is on disk) -/
+  | reload (es : List DirInfo) (disk : List (File Comp))
+  /-- `SharesManager.scan()`: every directory is scanned, `ScanCompleteEvent` is emitted -/
+  | scanAll (disk : List (File Comp))
   /-- `add_shared_directory(path, share_mode, users)` then `scan_directory_files` -/
   | share (d : DirInfo) (disk : List (File Comp))
   /-- `remove_shared_directory(path)` -/
@@ -339,6 +363,8 @@ inductive Obs
   | refusal (r : Option FailR)
   | changed (ok : Bool)
   | noSuchUpload
+  /-- the op is outside the modelled domain (two settings entries for one path) -/
+  | outside
 
 def modifyAt (xs : List Xfer) (k : Nat) (f : Xfer → Xfer × Bool) : List Xfer × Obs :=
   match xs[k]? with
@@ -348,9 +374,47 @@ def modifyAt (xs : List Xfer) (k : Nat) (f : Xfer → Xfer × Bool) : List Xfer 
 def setDirMode (dirs : List DirInfo) (p : List Comp) (m : Mode) : List DirInfo :=
   dirs.map (fun d => if d.path = p then { d with mode := m } else d)
 
+/-- `load_from_settings()` on the index (shares/manager.py:234-262). For every entry, in the
+order of the settings: a path that is not shared yet goes through `add_shared_directory` (which
+carves its items out of the innermost directory shared *at that moment* — directories about to be
+dropped included), a known one through `update_shared_directory`. Then `_shared_directories` is
+replaced by the listed directories — a directory that is no longer named is dropped **without**
+handing its items to a parent (unlike `remove_shared_directory`) — and the term map is rebuilt
+from the directories that are left. -/
+def reloadSh (sh : St Comp) (ps : List (List Comp)) : St Comp :=
+  let sh1 := ps.foldl (fun s p => (add s p).1) sh
+  let items := sh1.items.filter (fun it => ps.contains it.sd)
+  { paths := ps, items := items, tm := items }
+
+/-- the directories `load_from_settings()` drops: shared now, not named by the settings -/
+def droppedBy (sh : St Comp) (ps : List (List Comp)) : List (List Comp) :=
+  sh.paths.filter (fun p => !ps.contains p)
+
 def step (s : S) : Op → S × Obs
-  | .setFriends l => ({ s with cfg := { s.cfg with friends := l }, sharesChanged := true }, .none)
-  | .setBlocked l => ({ s with cfg := { s.cfg with blocked := l }, sharesChanged := true }, .none)
+  | .setFriends l =>
+    ({ s with cfg := { s.cfg with friends := l }, seenFriends := l, sharesChanged := true }, .none)
+  | .setBlocked l =>
+    ({ s with cfg := { s.cfg with blocked := l }, seenBlocked := l, sharesChanged := true }, .none)
+  | .mutFriends l => ({ s with cfg := { s.cfg with friends := l } }, .none)
+  | .mutBlocked l => ({ s with cfg := { s.cfg with blocked := l } }, .none)
+  | .poll =>
+    -- `if context.friends != settings.friends: events.append(…)`, the same for `blocked`;
+    -- `if events:` both copies are refreshed; each event reaches `_request_shares_cycle`
+    if s.seenFriends != s.cfg.friends || s.seenBlocked != s.cfg.blocked then
+      ({ s with seenFriends := s.cfg.friends, seenBlocked := s.cfg.blocked, sharesChanged := true }, .none)
+    else (s, .none)
+  | .reload es disk =>
+    let ps := es.map (·.path)
+    if ¬ ps.Nodup then (s, .outside)
+    else
+      -- one `SharedDirectoryChangeEvent` per entry (`add_…` / `update_shared_directory` emit
+      -- unconditionally) and, after the fix, one per dropped directory
+      let announced := !es.isEmpty || !(droppedBy s.sh ps).isEmpty
+      ({ s with sh := ps.foldl (fun sh p => scanDir sh p disk) (reloadSh s.sh ps),
+                cfg := { s.cfg with dirs := es },
+                sharesChanged := s.sharesChanged || announced }, .res .ok)
+  | .scanAll disk =>
+    ({ s with sh := s.sh.paths.foldl (fun sh p => scanDir sh p disk) s.sh, sharesChanged := true }, .none)
   | .share d disk =>
     let r := add s.sh d.path
     match r.2 with
